@@ -10,12 +10,13 @@
 //!   Create one per test case on the worker thread.
 //!
 //! Native stack: the evaluator is a recursive tree walker. A Lua-level call
-//! costs roughly 1-2 KB of native stack in typical generated code and at most
-//! ~300 KB in the pathological case (200 syntactic nesting levels inside every
-//! function). With the default call-depth limit of 180, run on a thread with a
-//! stack of 64 MB or more, or lower the guard with
-//! [`Lua::set_native_stack_limit`] to about 3/4 of the thread's stack size:
-//! the guard turns native exhaustion into a `StackOverflow` error.
+//! costs 1.2-2.5 KB of native stack in ordinary code and about 100 KB in the
+//! pathological case (150-200 syntactic nesting levels inside the function).
+//! With the default call-depth limit of 180 that is below 0.5 MB typically and
+//! below 20 MB in the worst case: run on a thread with a stack of 64 MB or
+//! more, or lower the guard with [`Lua::set_native_stack_limit`] (default
+//! 48 MB) to about 3/4 of the thread's stack size. The guard turns native
+//! exhaustion into a `StackOverflow` error instead of a crash.
 
 pub mod ast;
 pub mod interp;
@@ -197,6 +198,16 @@ impl Lua {
             value_is_string,
             exit_code,
         }
+    }
+
+    /// Adds what a Lua 5.3 built with `-DLUA_COMPAT_5_2` has on top of the plain
+    /// language (the stock `make linux` build and the Debian/Ubuntu `lua5.3`
+    /// package are built that way): `math.pow`, `math.atan2`, `math.cosh`,
+    /// `math.sinh`, `math.tanh`, `math.log10`, `math.frexp`, `math.ldexp` and
+    /// the `__ipairs` metamethod. (`bit32` is not provided; the global `unpack`
+    /// belongs to LUA_COMPAT_5_1 and stays absent.) Off by default.
+    pub fn enable_compat_5_2(&mut self) {
+        stdlib::open_compat_5_2(&mut self.st);
     }
 
     /// Everything `print` / `io.write` wrote so far; clears the buffer.
